@@ -28,6 +28,8 @@ impl MemTable {
 
     pub fn write(&self, write_batch: &mut WriteBatch) -> Result<(), SError> {
         for entry in write_batch.entries.iter() {
+            #[cfg(rescrv_blue_verif)]
+            crate::verif::sched(crate::verif::SchedEvent::Point("write:entry"));
             self.approximate_size.fetch_add(
                 entry.key.len() + entry.value.as_ref().map(|x| x.len()).unwrap_or_default() + 16,
                 atomic::Ordering::Relaxed,
